@@ -1,6 +1,6 @@
 (* Contracts at the level of a whole parse: Program.match / Program.__new__. *)
 From Coq Require Import List Bool Arith NArith Lia.
-From FV Require Import Scope Engine EngineContracts TableOk.
+From FV Require Import Scope Engine EngineContracts EngineShape TableOk.
 Import ListNotations.
 
 Section Program.
@@ -170,5 +170,60 @@ Qed.
 
 Lemma filter_yield_eq (f : item -> bool) t l : yield t = l -> filter f (yield t) = filter f l.
 Proof. now intros ->. Qed.
+
+(* ---------------------------------------------------------------- K4 for the whole parse *)
+Lemma program_loop_shape rec (HR : Contract T rec) (HS : ShapeC T rec) k : forall content s c' s',
+  Forall (WN T) content -> program_loop T rec k content s = (Val c', s') -> Forall (WN T) c'.
+Proof.
+  destruct TS.
+  induction k as [|k IH]; intros content s c' s' W; cbn [program_loop]; [discriminate|].
+  unfold bind at 1. destruct (call rec (t_program_unit T) s) as [[o|e] s1] eqn:C; [|discriminate].
+  assert (W1 : Forall (WN T) (match o with Some t => content ++ [t] | None => content end)).
+  { destruct o as [t|]; [|exact W]. apply Forall_app; split; [exact W|]. constructor; [|constructor].
+    eapply call_shape; eauto. }
+  unfold bind at 1.
+  destruct (add_cid T rec (S k) (match o with Some t => content ++ [t] | None => content end) s1)
+    as [[content2|e] s2] eqn:AC; [|discriminate].
+  destruct (add_cid_shape T ts_inc ts_cpp rec HR HS _ _ _ _ _ AC) as [extra [E [W2 _]]].
+  assert (W3 : Forall (WN T) content2) by (rewrite E; apply Forall_app; split; assumption).
+  destruct (stream s2) as [|i r] eqn:ST.
+  - intros H. inversion H; subst. exact W3.
+  - unfold get_item. rewrite ST. apply IH. exact W3.
+Qed.
+
+Theorem program_top_shape fuel c s t s' :
+  c_kind (entry T c) = KProgram ->
+  program_top T L fuel c s = (Val (Some t), s') -> WN T t.
+Proof.
+  intros KP. pose proof (engine_contract T L HT fuel) as HR. pose proof (engine_shape T L HT fuel) as HS.
+  destruct TS.
+  unfold program_top. set (s0 := set_pcls [c] (tick s)).
+  destruct (catch_nomatch (program_match T (new T L fuel)) s0) as [[[content|]|e] s1] eqn:PM; [| |discriminate].
+  - intros H. inversion H; subst. apply catch_val in PM. constructor.
+    + unfold program_match in PM.
+      destruct (program_units T (new T L fuel) s0) as [[ct|e] s2] eqn:PU.
+      * inversion PM; subst. unfold program_units, bind in PU.
+        destruct (add_cid T (new T L fuel) (2 * length (stream s0) + 3) [] s0) as [[c0|e] s3] eqn:AC; [|discriminate].
+        destruct (add_cid_shape T ts_inc ts_cpp _ HR HS _ _ _ _ _ AC) as [extra [E [W _]]]. cbn in E. subst c0.
+        eapply program_loop_shape; eauto.
+      * destruct e; try discriminate.
+        apply (block_match_shape T ts_inc ts_cpp (new T L fuel) HR HS) in PM; [apply PM|].
+        intros X. discriminate.
+    + intros b [K|K]; rewrite KP in K; discriminate.
+  - destruct (try_alts (new T L fuel) (c_alts (entry T c)) s1) as [[[t0|]|e] s2] eqn:TA.
+    + intros H. inversion H; subst. eapply try_alts_shape; eauto.
+    + destruct (seen_code s2); discriminate.
+    + discriminate.
+Qed.
+
+Theorem program_new_shape fuel c s t s' :
+  c_kind (entry T c) = KProgram ->
+  program_new T L fuel c s = (OTree t, s') -> WN T t.
+Proof.
+  intros KP. unfold program_new. destruct (program_top T L fuel c s) as [[[t0|]|e] s1] eqn:PT.
+  - intros H. inversion H; subst. eapply program_top_shape; eauto.
+  - discriminate.
+  - destruct e; discriminate.
+Qed.
 
 End Program.
